@@ -268,6 +268,10 @@ func genExpr(t *rapid.T, depth int) string {
 			return sign + fmt.Sprintf("0%o", rapid.IntRange(lo, 63).Draw(t, "oct"))
 		case k == 3:
 			return sign + strconv.FormatInt(rapid.Int64Range(1, 1<<62).Draw(t, "big"), 10)
+		case k == 4 && rapid.Bool().Draw(t, "limit"):
+			// the limits of int64 in every base (the smallest value only exists with its sign)
+			return rapid.SampledFrom([]string{"-9223372036854775808", "9223372036854775807", "-0x8000000000000000", "0x7FFFFFFFFFFFFFFF",
+				"-01000000000000000000000", "0777777777777777777777", "-9223372036854775807", "+9223372036854775807"}).Draw(t, "limitLit")
 		default:
 			return sign + strconv.Itoa(rapid.IntRange(1, 50).Draw(t, "dec"))
 		}
